@@ -8,7 +8,7 @@ use rabin::ChunkIter as RabinChunkIter;
 use rustic_cdc::Rabin64;
 
 use crate::{
-    RusticResult,
+    ErrorKind, RusticError, RusticResult,
     repofile::{ConfigFile, configfile::Chunker},
 };
 
@@ -37,11 +37,19 @@ impl<R: Read + Send> ChunkIter<R> {
                     size_hint,
                 )?))
             }
-            Chunker::FixedSize => Self::FixedSize(FixedSizeChunkIter::new(
-                config.chunk_size(),
-                reader,
-                size_hint,
-            )),
+            Chunker::FixedSize => {
+                if config.chunk_size() == 0 {
+                    return Err(RusticError::new(
+                        ErrorKind::Unsupported,
+                        "Chunk size must be larger than 0 for the fixed size chunker.",
+                    ));
+                }
+                Self::FixedSize(FixedSizeChunkIter::new(
+                    config.chunk_size(),
+                    reader,
+                    size_hint,
+                ))
+            }
         };
         Ok(iter)
     }
